@@ -53,7 +53,7 @@ CLAIMS = {
     "C12": {
         "text": 'Bounded model checking of frames produced by the real #[proxy] expansion of a fixed 10-method corpus trait (no-arg, scalars, &str, Option, renamed method, renamed parameter, renamed Option parameter, more, oneway, digit in name) for symbolic argument values: the chain_<m>() and chain-extension forms enqueue byte for byte the call the declaration denotes (method path, wire names, omitted None, flags).',
         "design_ref": 'DESIGN.md section 3 (C12), 12 and 13',
-        "note": 'Frame-equality part only, on the chain forms (synchronous enqueue). The plain async method (a 4-deep coroutine nest) is in the thorough tier where it finishes and is otherwise compared natively only (selftest). The quantifier over traits is replaced by a fixed corpus, so a macro change that only affects shapes outside the corpus is missed. Known findings: chain forms ignore parameter renames, send None as null, drop `more`.',
+        "note": 'Frame-equality part only, on the chain forms (synchronous enqueue). The plain async method (a 4-deep coroutine nest: no verdict after 25 min of symbolic execution even without arguments) is compared with the same expected frame natively only (selftest), which is not a solver verdict: a change that affects only the plain form is missed (seeds C12-B, C12-C). The quantifier over traits is replaced by a fixed corpus, so a macro change that only affects shapes outside the corpus is missed. Known findings: chain forms ignore parameter renames, send None as null, drop `more`.',
     },
     "C13": {
         "text": "Bounded model checking of the real IDL parser per grammar production against reference recognisers written from the Varlink grammar: interface_name, field_name, type_name and "
